@@ -376,5 +376,6 @@ def check(ctx):
     check_exceptions(ctx, la)
     check_atomics(ctx)
     check_dbiter_confined(ctx)
-    from . import c13
+    from . import c13, c09
+    c09.check_manual_cancel(ctx)  # a stack object published to the background thread outlives the background's use of it
     c13.check_cache_pins(ctx)     # objects reached through a cache handle are not touched after the handle is released
